@@ -2,6 +2,7 @@
 from fractions import Fraction as Fr
 from .. import gen as G
 from .common import TRUSTED, ASSUMPTIONS, default_nontrivial, LEVEL_NOTE, TECHNIQUE
+from . import C19 as _C19
 
 LEVEL = "proof"
 THEOREMS = ['C13_roundtrip', 'C13_projection', 'C13_cfuse_eq_acm', 'C13_afuse_eq_avg', 'C13_wfuse_eq_wgh', 'C13_cfuse_err_iff', 'C13_two_dogmatic_mean', 'C13_vacuous_band_within']
@@ -12,6 +13,8 @@ RULE = ("bconv (round trip) and bvs (cfuse/afuse/wfuse vs FuseOp on converted op
         "&BSimplex -> &Simplex1d view, a second trip) with the projections of both representations, on the grid, dyadic, arbitrary "
         "non-dyadic floats and nearly dogmatic / nearly vacuous opinions (u resp. 1-u in 1e-3..1e-15), base rates other than 1/2: "
         "lossless bit for bit, by-reference = by-value; bvs with variant `alias` (the same object fused with itself on both sides); "
+        "bfold with variant `vs`: the LEFT FOLD of cfuse / afuse / wfuse over k = 3..10 non-dogmatic, non-vacuous operands against the "
+        "multinomial fold (ACm / Avg / Wgh) of the converted operands, converted back; "
         "f32+f64. non-trivial = value or legitimate error")
 EXHAUSTIVE = {}
 LEVEL_TEXT = ("Theorems over the exact model: conversion round trip is the identity and preserves the projection; on operands whose "
@@ -91,6 +94,8 @@ def cases(rng, tier):
         for _ in range(N // 6):
             x = one()
             out.append(G.line("bvs", fmt, "B.o.alias", [rng.randint(0, 2)], list(x) + list(x) + [Fr(1, 2)]))
+        # folds: the binomial fold of cfuse / afuse / wfuse vs the multinomial fold of the converted operands (k = 3..10)
+        out += _C19.fold_cases(rng, fmt, N // 4, "B.o.vs", (0, 1, 2))
     return out
 
 
